@@ -1,6 +1,7 @@
-import DFV.Lemmas.C02Patch
+import DFV.Lemmas.C02DictCells
 import DFV.Lemmas.C02Nearest
 import DFV.Lemmas.C02Line
+import DFV.Lemmas.C02Ex
 /-!
 # C02 — a field holds exactly the value its specification assigns to every cell
 
@@ -223,6 +224,7 @@ theorem updateValues_field_wrong_nvdim_rejected (isZero : V → Bool) (junk : Op
 
 /-! ## sampling, components, iteration -/
 
+omit [Inhabited V] in
 /-- Sampling is `array[point2index(p)]`: the `nvdim` stored values of the cell whose index
 `point2index` returns; a point `point2index` rejects is rejected. -/
 theorem call_eq (f : VF V) (p : List Rat) :
@@ -236,6 +238,7 @@ theorem call_eq (f : VF V) (p : List Rat) :
     unfold row; rw [getD_tab _ _ _ _ hc]
   · intro e he; simp [VF.call, he]
 
+omit [Inhabited V] in
 /-- Sampling at any point of the region returns the stored value of a cell that contains the
 point: lower faces inclusive, upper faces exclusive except for the last cell of an axis. -/
 theorem call_cell_contains (f : VF V) (hm : f.mesh.Inv) (p : List Rat) (hp : f.mesh.region.containsExact p) :
@@ -250,18 +253,20 @@ theorem call_cell_contains (f : VF V) (hm : f.mesh.Inv) (p : List Rat) (hp : f.m
     indexAx_contains f.mesh a (p.getD a 0) (inv_n_pos _ hm a ha) (inv_lo_lt_hi _ hm a ha) (hb a ha).1 (hb a ha).2
   refine ⟨_, ((call_eq f p).1 _ h2i).1, ?_, fun a ha => ?_⟩
   · rw [inRange_iff]
-    refine ⟨by simp [hm.2.1], fun a ha => ?_⟩
-    have ha' : a < f.mesh.ndim := by rw [← hm.2.1]; exact ha
+    refine ⟨by rw [tab_length]; exact hm.2.1.symm, fun a ha => ?_⟩
+    have ha' : a < f.mesh.ndim := by have := hm.2.1; unfold Mesh.ndim; omega
     rw [getD_tab _ _ _ _ ha']
     exact (hc a ha').1
   · rw [getD_tab _ _ _ _ ha]
     exact (hc a ha).2
 
+omit [Inhabited V] in
 /-- Sampling at the centre of cell `i` returns the values stored for cell `i`. -/
 theorem call_centre (f : VF V) (hm : f.mesh.Inv) (i : List Nat) (hi : inRange f.mesh.n i = true) :
     f.call (f.mesh.centre i) = .ok (row f.data f.nvdim i) :=
   ((call_eq f _).1 i (point2index_centre f.mesh hm i hi)).1
 
+omit [Inhabited V] in
 /-- A point outside the region (beyond its comparison tolerance) cannot be sampled. -/
 theorem call_outside (f : VF V) (p : List Rat) (h : f.mesh.region.containsPt p = false) :
     f.call p = .error .value := by
@@ -307,6 +312,7 @@ theorem comp_unknown_rejected (isZero : V → Bool) (f : VF V) (label : String)
   · rename_i vs hvs
     rw [h vs hvs]
 
+omit [Inhabited V] in
 /-- Iteration yields the cells in mesh order: the `k`-th item is the stored value of the `k`-th
 index of `Mesh.indices`. -/
 theorem iter_eq (f : VF V) (hm : f.mesh.Inv) :
@@ -319,6 +325,7 @@ theorem iter_eq (f : VF V) (hm : f.mesh.Inv) :
 
 /-! ## lines -/
 
+omit [Inhabited V] in
 /-- A line has the requested number of points, `point_j = p1 + j·(p2 − p1)/(n − 1)`. -/
 theorem line_points (f : VF V) (p1 p2 : List Rat) (n : Nat) (o : LineOut V) (h : f.line p1 p2 n = .ok o) :
     o.points.length = n ∧ o.values.length = n ∧ o.r2.length = n ∧
@@ -332,6 +339,7 @@ theorem line_points (f : VF V) (p1 p2 : List Rat) (n : Nat) (o : LineOut V) (h :
     simpa [hl] using this.symm
   · rw [hpts, getD_tab _ _ _ _ hj, getD_tab _ _ _ _ ha]
 
+omit [Inhabited V] in
 /-- The line runs from `p1` to `p2` inclusive. -/
 theorem line_ends (f : VF V) (p1 p2 : List Rat) (n : Nat) (o : LineOut V) (h : f.line p1 p2 n = .ok o) :
     o.points.getD 0 [] = p1 ∧ o.points.getD (n - 1) [] = p2 := by
@@ -354,6 +362,7 @@ theorem line_ends (f : VF V) (p1 p2 : List Rat) (n : Nat) (o : LineOut V) (h : f
     have : ((n - 1 : Nat) : Rat) = (n : Rat) - 1 := by rw [Nat.cast_sub (by omega)]; simp
     rw [this]; field_simp; ring
 
+omit [Inhabited V] in
 /-- The points are equidistant: consecutive points differ by the same vector `(p2 − p1)/(n − 1)`. -/
 theorem line_equidistant (f : VF V) (p1 p2 : List Rat) (n : Nat) (o : LineOut V) (h : f.line p1 p2 n = .ok o)
     (j a : Nat) (hj : j + 1 < n) (ha : a < f.mesh.ndim) :
@@ -363,6 +372,7 @@ theorem line_equidistant (f : VF V) (p1 p2 : List Rat) (n : Nat) (o : LineOut V)
   rw [hp (j + 1) a hj ha, hp j a (by omega) ha]
   push_cast; ring
 
+omit [Inhabited V] in
 /-- The distance column: `r_j² = j²·|p2 − p1|²/(n − 1)²`, i.e. `r_j = j·|p2 − p1|/(n − 1)`
 (stated on squares; the data frame holds the square roots). -/
 theorem line_r2 (f : VF V) (p1 p2 : List Rat) (n : Nat) (o : LineOut V) (h : f.line p1 p2 n = .ok o)
@@ -378,6 +388,7 @@ theorem line_r2 (f : VF V) (p1 p2 : List Rat) (n : Nat) (o : LineOut V) (h : f.l
   rw [this, hpts, getD_tab _ _ _ _ hj, getD_tab _ _ _ _ (by omega)]
   exact sqDist_line f.mesh.ndim n j p1 p2 (containsPt_length _ _ hc2) hn
 
+omit [Inhabited V] in
 /-- The values along the line are the field sampled at the line's points. -/
 theorem line_values (f : VF V) (p1 p2 : List Rat) (n : Nat) (o : LineOut V) (h : f.line p1 p2 n = .ok o)
     (j : Nat) (hj : j < n) : f.call (o.points.getD j []) = .ok (o.values.getD j []) := by
@@ -391,6 +402,7 @@ theorem line_values (f : VF V) (p1 p2 : List Rat) (n : Nat) (o : LineOut V) (h :
     List.getElem?_eq_getElem (show j < o.values.length by omega), Option.getD_some]
   exact this
 
+omit [Inhabited V] in
 /-- A line with an end point outside the region is rejected. -/
 theorem line_outside_rejected (f : VF V) (p1 p2 : List Rat) (n : Nat)
     (h : f.mesh.region.containsPt p1 = false ∨ f.mesh.region.containsPt p2 = false) :
@@ -398,6 +410,7 @@ theorem line_outside_rejected (f : VF V) (p1 p2 : List Rat) (n : Nat)
   unfold VF.line meshLine
   rcases h with h | h <;> simp [h]
 
+omit [Inhabited V] in
 /-- † Finding D23: on a 1-d mesh `Field.line` never succeeds (the code's `Mesh.line` yields bare
 numbers and `Line.__init__` then fails), although the property promises a line for every mesh. -/
 theorem line_1d_rejected (f : VF V) (p1 p2 : List Rat) (n : Nat) (h : f.mesh.ndim = 1) :
@@ -454,5 +467,240 @@ theorem setArray_field_wrong_nvdim_accepted (isZero : V → Bool) (f : VF V) (sr
     ∃ g, f.setArray isZero (.field src) = .ok g ∧ g.data.shape = f.mesh.n ++ [src.nvdim] := by
   have hbr : ¬ (src.nvdim = 1 ∧ f.nvdim ≠ 1) := fun h => h2 h.1
   refine ⟨_, by simp only [VF.setArray, asLeaf, hc, hd, hbr]; simp; rfl, rfl⟩
+
+/-! ## dictionaries over subregions -/
+
+/-- `Mesh.region2slices` of a subregion that is a union of cells is exactly its index box, and a
+cell lies in that box iff the subregion contains the cell's centre. -/
+theorem region2slices_cells (m : Mesh) (hm : m.Inv) (r : Region) (k1 k2 : Nat → Nat) (h : AlignedSub m r k1 k2) :
+    region2slices m r = .ok (tab m.ndim k1, tab m.ndim k2) ∧
+    ∀ i, inRange m.n i = true →
+      (inBox (tab m.ndim k1) (tab m.ndim k2) i = true ↔
+        ∀ a, a < m.ndim → r.lo a ≤ m.centreAx a (i.getD a 0 : Nat) ∧ m.centreAx a (i.getD a 0 : Nat) ≤ r.hi a) := by
+  refine ⟨region2slices_spec m hm r k1 k2 h, fun i hi => ?_⟩
+  have := inBox_iff_centre m hm r k1 k2 h i hi []
+  simpa using this
+
+/-- CENTREPIECE — refinement of the dictionary overload.  The code fills an array with the
+default (or the NaN sentinel), walks `reversed(mesh.subregions)` assigning each listed
+subregion's converted value to its slices, and finally calls a callable default on the cells
+still holding the sentinel.  Entry `(i, c)` of the result is: what the FIRST LISTED subregion
+that writes the entry writes there (`patchVal`), and otherwise the default's value for the cell. -/
+theorem asArray_dict (isZero : V → Bool) (items : List (String × Leaf V)) (dflt : Option (Dflt V))
+    (m : Mesh) (nv : Nat) (a : NDA V) (hlen : m.n.length = m.ndim)
+    (h : asArray isZero none (.dict items dflt) m nv = .ok a)
+    (i : List Nat) (hi : inRange m.n i = true) (c : Nat) (hc : c < nv) :
+    a.get (i ++ [c]) =
+      match m.subs.findSome? (fun p => patchVal isZero items m nv p (i ++ [c])) with
+      | some v => v
+      | none => dfltVal dflt m nv i c :=
+  asArray_dict_main isZero items dflt m nv a hlen h i hi c hc
+
+/-- The same on a mesh whose subregions are unions of cells (which `Mesh` guarantees, C14): the
+value of cell `i` comes from the first listed subregion that is a key of the dictionary and
+contains the cell (`hits`; by `region2slices_cells`: contains its centre) — namely that key's
+specification converted on the subregion's own mesh, read at the cell's index there — and
+otherwise from the default. -/
+theorem asArray_dict_first_listed (isZero : V → Bool) (items : List (String × Leaf V)) (dflt : Option (Dflt V))
+    (m : Mesh) (hm : m.Inv) (nv : Nat) (a : NDA V) (k1 k2 : String × Region → Nat → Nat)
+    (hal : ∀ p ∈ m.subs, AlignedSub m p.2 (k1 p) (k2 p))
+    (hfield : ∀ q ∈ items, ∀ src, q.2 = .field src → src.nvdim = nv)
+    (h : asArray isZero none (.dict items dflt) m nv = .ok a)
+    (i : List Nat) (hi : inRange m.n i = true) (c : Nat) (hc : c < nv) :
+    a.get (i ++ [c]) =
+      match m.subs.find? (hits items m k1 k2 i) with
+      | some p => cellOf isZero items m nv k1 k2 i c p
+      | none => dfltVal dflt m nv i c := by
+  have hlen : m.n.length = m.ndim := hm.2.1
+  have hil : i.length = m.ndim := by rw [← hlen]; exact inRange_length _ _ hi
+  rw [asArray_dict isZero items dflt m nv a hlen h i hi c hc,
+    findSome_patch isZero items m hm nv k1 k2 i hil c hc m.subs hal]
+  · cases m.subs.find? (hits items m k1 k2 i) <;> rfl
+  · intro p hp lf hl
+    obtain ⟨sub, hsub⟩ := listed_leaf_ok isZero items dflt m hm nv a h k1 k2 p hp (hal p hp) lf hl
+    refine ⟨sub, hsub, asLeaf_shape isZero lf _ nv sub hsub fun src e => ?_⟩
+    obtain ⟨q, hq, hq2⟩ := lookupLeaf_mem items p.1 lf hl
+    exact hfield q hq src (by rw [hq2, e])
+
+/-- What a listed subregion assigns to a cell it contains: a constant gives the constant, … -/
+theorem dict_cell_const (isZero : V → Bool) (items : List (String × Leaf V)) (m : Mesh) (nv : Nat)
+    (k1 k2 : String × Region → Nat → Nat) (i : List Nat) (c : Nat) (p : String × Region) (v : V)
+    (hl : lookupLeaf items p.1 = some (.scalar v)) (hv : nv ≤ 1 ∨ isZero v = true) :
+    cellOf isZero items m nv k1 k2 i c p = v := by
+  obtain ⟨a, ha, _, hg⟩ := asArray_const isZero none v (subMeshOf m p.2 (k1 p) (k2 p)) nv hv
+  simp only [asArray] at ha
+  simp [cellOf, hl, leafVal, ha, hg]
+
+/-- … a callable gives its value at the centre of the MESH cell (the submesh's cell centres are
+the mesh's), … -/
+theorem dict_cell_func (isZero : V → Bool) (items : List (String × Leaf V)) (m : Mesh) (hm : m.Inv) (nv : Nat)
+    (k1 k2 : String × Region → Nat → Nat) (i : List Nat) (hi : inRange m.n i = true) (c : Nat)
+    (p : String × Region) (f : List Rat → List V)
+    (hal : AlignedSub m p.2 (k1 p) (k2 p)) (hit : hits items m k1 k2 i p = true)
+    (hl : lookupLeaf items p.1 = some (.func f))
+    (hlen : ∀ il, inRange (subMeshOf m p.2 (k1 p) (k2 p)).n il = true →
+      (f ((subMeshOf m p.2 (k1 p) (k2 p)).centre il)).length = nv) :
+    cellOf isZero items m nv k1 k2 i c p = (f (m.centre i)).getD c default := by
+  have hil : i.length = m.ndim := (inRange_length _ _ hi).trans hm.2.1
+  have hb : inBox (tab m.ndim (k1 p)) (tab m.ndim (k2 p)) (i ++ []) = true := by
+    simp only [hits, Bool.and_eq_true] at hit; simpa using hit.2
+  obtain ⟨b, hb1, _, hg⟩ := asArray_func isZero none f (subMeshOf m p.2 (k1 p) (k2 p)) nv hlen
+  simp only [asArray] at hb1
+  have hr := subIdx_inRange m (k1 p) (k2 p) i hil [] hb
+  simp only [cellOf, hl, leafVal, hb1]
+  rw [hg _ c hr, subMesh_centre m hm p.2 (k1 p) (k2 p) hal i hil [] hb]
+
+/-- … a per-cell array of the subregion's shape gives its entry at the cell's index within the
+subregion. -/
+theorem dict_cell_array (isZero : V → Bool) (items : List (String × Leaf V)) (m : Mesh) (hm : m.Inv) (nv : Nat)
+    (k1 k2 : String × Region → Nat → Nat) (i : List Nat) (hi : inRange m.n i = true) (c : Nat) (hc : c < nv)
+    (p : String × Region) (arr : NDA V) (hit : hits items m k1 k2 i p = true)
+    (hl : lookupLeaf items p.1 = some (.arr arr))
+    (hs : arr.shape = (subMeshOf m p.2 (k1 p) (k2 p)).n ++ [nv]) :
+    cellOf isZero items m nv k1 k2 i c p = arr.get (subIdx m (k1 p) i ++ [c]) := by
+  have hil : i.length = m.ndim := (inRange_length _ _ hi).trans hm.2.1
+  have hb : inBox (tab m.ndim (k1 p)) (tab m.ndim (k2 p)) (i ++ []) = true := by
+    simp only [hits, Bool.and_eq_true] at hit; simpa using hit.2
+  obtain ⟨b, hb1, _, hg⟩ := asArray_array isZero none arr (subMeshOf m p.2 (k1 p) (k2 p)) nv hs
+  simp only [asArray] at hb1
+  have hr := subIdx_inRange m (k1 p) (k2 p) i hil [] hb
+  simp only [cellOf, hl, leafVal, hb1]
+  apply hg
+  show inRange ((tab m.ndim fun a => k2 p a - k1 p a) ++ [nv]) (subIdx m (k1 p) i ++ [c]) = true
+  rw [inRange_snoc, hr]; simp [hc]
+
+/-- No `default` and some cell that no listed subregion covers: rejected. -/
+theorem asArray_dict_missing_default (isZero : V → Bool) (items : List (String × Leaf V)) (m : Mesh) (nv : Nat)
+    (i : List Nat) (hi : inRange m.n i = true) (c : Nat) (hc : c < nv)
+    (hun : (m.subs.findSome? fun p => patchVal isZero items m nv p (i ++ [c])) = none) :
+    ∃ e, asArray isZero none (.dict items none) m nv = .error e :=
+  asArray_dict_nodefault isZero items m nv i hi c hc hun
+
+/-- Well-formed dictionaries are accepted: subregions that are unions of cells, every listed
+value convertible on its submesh, a default NumPy can broadcast — the conversion succeeds with
+an array of shape `(*n, nvdim)` (so the hypotheses of the theorems above are satisfiable on
+meshes with overlapping subregions). -/
+theorem asArray_dict_accepts (isZero : V → Bool) (items : List (String × Leaf V)) (d : NDA V)
+    (m : Mesh) (hm : m.Inv) (nv : Nat) (k1 k2 : String × Region → Nat → Nat)
+    (hal : ∀ p ∈ m.subs, AlignedSub m p.2 (k1 p) (k2 p))
+    (hok : ∀ p ∈ m.subs, ∀ lf, lookupLeaf items p.1 = some lf →
+      ∃ sub, asLeaf isZero lf (subMeshOf m p.2 (k1 p) (k2 p)) nv = .ok sub ∧
+        sub.shape = (subMeshOf m p.2 (k1 p) (k2 p)).n ++ [nv])
+    (hd : bcastOk (m.n ++ [nv]) d.shape = true) :
+    ∃ a, asArray isZero none (.dict items (some (.val d))) m nv = .ok a ∧ a.shape = m.n ++ [nv] := by
+  have hfill : fillOf (none : Option V) (some (.val d)) m nv =
+      .ok (NDA.map some ⟨m.n ++ [nv], fun j => d.get (bcastIdx (m.n ++ [nv]) d.shape j)⟩) := by
+    simp [fillOf, bcast, hd]
+  obtain ⟨a1, ha1, hs1⟩ := dictLoop_ok isZero items m hm nv k1 k2 m.subs.reverse
+    (fun p hp => hal p (by simpa using hp)) (fun p hp => hok p (by simpa using hp))
+    (NDA.map some ⟨m.n ++ [nv], fun j => d.get (bcastIdx (m.n ++ [nv]) d.shape j)⟩)
+  have hany : anyNone a1 = false := anyNone_of_all_some a1 fun j => hs1 j rfl
+  refine ⟨unwrap a1, by simp [asArray, hfill, ha1, hany], ?_⟩
+  exact (dictLoop_get isZero items m nv _ _ a1 ha1).1
+
+/-- † Finding D21: for a dtype that cannot hold NaN (int, bool) `np.full(…, np.nan, dtype)` stores
+the cast value `g`, `np.isnan` never fires, and a dictionary whose default is callable or missing
+leaves `g` in every cell no listed subregion covers — no default pass, no `KeyError`.  (Shown on a
+mesh without subregions; the property's theorems above are stated for `junk = none`.) -/
+theorem dict_sentinel_lost (isZero : V → Bool) (g : V) (items : List (String × Leaf V)) (dflt : Option (Dflt V))
+    (m : Mesh) (nv : Nat) (hs : m.subs = []) (hd : dflt = none ∨ ∃ f, dflt = some (.func f)) :
+    ∃ a, asArray isZero (some g) (.dict items dflt) m nv = .ok a ∧ ∀ j, a.get j = g := by
+  have hany : anyNone (NDA.const (m.n ++ [nv]) (some g)) = false :=
+    anyNone_of_all_some _ fun _ => rfl
+  refine ⟨unwrap (NDA.const (m.n ++ [nv]) (some g)), ?_, fun _ => rfl⟩
+  rcases hd with rfl | ⟨f, rfl⟩ <;> simp [asArray, fillOf, hs, dictLoop, hany]
+
+/-! ## acceptance (the hypotheses `… = .ok _` above are satisfiable) -/
+
+omit [Inhabited V] in
+/-- Two points of the region and `n ≥ 2` give a line on every mesh of dimension ≠ 1: all its points
+lie in the region, so all can be sampled. -/
+theorem line_accepts (f : VF V) (hnd : f.mesh.ndim ≠ 1) (p1 p2 : List Rat) (n : Nat) (hn : 2 ≤ n)
+    (h1 : f.mesh.region.containsExact p1) (h2 : f.mesh.region.containsExact p2) :
+    ∃ o, f.line p1 p2 n = .ok o := by
+  have c1 := containsPt_exact _ p1 h1.1 h1.2
+  have c2 := containsPt_exact _ p2 h2.1 h2.2
+  have hml : meshLine f.mesh p1 p2 n = .ok (tab n fun i => tab f.mesh.ndim fun a =>
+      p1.getD a 0 + (i : Rat) * ((p2.getD a 0 - p1.getD a 0) / ((n : Rat) - 1))) := by
+    unfold meshLine
+    have : ¬ n < 2 := by omega
+    simp [c1, c2, this]
+  obtain ⟨vals, hvals⟩ := seqM_map_ok (tab n fun i => tab f.mesh.ndim fun a =>
+      p1.getD a 0 + (i : Rat) * ((p2.getD a 0 - p1.getD a 0) / ((n : Rat) - 1))) f.call (by
+    intro pt hpt
+    obtain ⟨j, hj, rfl⟩ := (mem_tab _ _ _).mp hpt
+    refine ⟨_, ((call_eq f _).1 _ (point2index_exact f.mesh _ (by simp) fun a ha => ?_)).1⟩
+    rw [getD_tab _ _ _ _ ha]
+    exact segment_in _ _ _ _ j n hn hj (h1.2 a ha) (h2.2 a ha))
+  unfold VF.line
+  rw [hml]
+  simp only [hvals, hnd, if_false]
+  exact ⟨_, rfl⟩
+
+/-- A label of the field is accepted by component access. -/
+theorem comp_accepts (isZero : V → Bool) (f : VF V) (label : String) (vs : List String) (k : Nat)
+    (hv : f.vdims = some vs) (hk : indexOf? vs label = some k) : ∃ g, f.comp isZero label = .ok g := by
+  obtain ⟨a, ha, has, _⟩ := asArray_array isZero none
+    ⟨f.mesh.n ++ [1], fun j => f.data.get (j.dropLast ++ [k])⟩ f.mesh 1 rfl
+  obtain ⟨b, hb, _, _⟩ := updateValues_eq isZero none _ f.mesh 1 a ha has
+  exact ⟨⟨f.mesh, 1, b, none⟩, by simp [VF.comp, hv, hk, VF.mk?, hb]⟩
+
+/-! ## non-vacuity: a 2-d mesh, 4 × 2 cells of size 1, two overlapping subregions -/
+
+section Ex
+open Ex
+
+/-- hypotheses of `asArray_dict`, `asArray_dict_first_listed`, `region2slices_cells` hold here:
+`{"r2": 2, "r1": 1, "default": 0}` on the mesh with overlapping `r1`, `r2` is accepted -/
+example : ∃ a, asArray (fun v : Rat => v == 0) none
+    (.dict [("r2", .scalar 2), ("r1", .scalar 1)] (some (.val (NDA.const [] 0)))) m0 1 = .ok a ∧
+    a.shape = [4, 2, 1] := by
+  apply asArray_dict_accepts _ _ _ m0 m0_inv 1 k1 k2 m0_aligned
+  · intro p _ lf hl
+    have : ∃ v, lf = .scalar v := by
+      simp only [lookupLeaf, List.find?_cons, List.find?_nil] at hl
+      split at hl
+      · exact ⟨2, by simpa using hl.symm⟩
+      · split at hl
+        · exact ⟨1, by simpa using hl.symm⟩
+        · cases hl
+    obtain ⟨v, rfl⟩ := this
+    exact ⟨NDA.const (_ ++ [1]) v, by simp [asLeaf], rfl⟩
+  · decide
+
+/-- in that field cell (1,0), which lies in both subregions, is a hit of the first listed one -/
+example : (m0.subs.find? (hits [("r2", Leaf.scalar (2 : Rat)), ("r1", .scalar 1)] m0 k1 k2 [1, 0])).map (·.1)
+    = some "r1" := by decide
+
+/-- and cell (3,1) is covered by no subregion -/
+example : (m0.subs.find? (hits [("r2", Leaf.scalar (2 : Rat)), ("r1", .scalar 1)] m0 k1 k2 [3, 1])).map (·.1)
+    = none := by decide
+
+/-- hypotheses of `asArray_field`: a source field on the coarser mesh 2 × 1 over the same region -/
+example : ∃ sm : Mesh, sm.Inv ∧ sm.ndim = m0.ndim ∧ m0.region.dims = sm.region.dims ∧
+    ∀ a, a < m0.ndim → sm.region.lo a ≤ m0.region.lo a ∧ m0.region.hi a ≤ sm.region.hi a := by
+  refine ⟨⟨reg [0, 0] [4, 2], [2, 1], "", []⟩, ⟨⟨by decide, rfl, rfl, rfl, by decide, fun a ha => ?_⟩, rfl,
+    fun a ha => ?_⟩, rfl, rfl, fun a ha => ?_⟩
+  · rcases lt_two a ha with rfl | rfl <;> decide
+  · rcases lt_two a ha with rfl | rfl <;> decide
+  · rcases lt_two a ha with rfl | rfl <;> decide
+
+/-- hypotheses of the line theorems: the diagonal of the mesh with 3 points is a line -/
+example (data : NDA Rat) : ∃ o, (VF.mk m0 1 data none).line [0, 0] [4, 2] 3 = .ok o :=
+  line_accepts _ (show m0.ndim ≠ 1 by decide) _ _ _ (by omega)
+    (show m0.region.containsExact [0, 0] from
+      ⟨rfl, fun a ha => by rcases lt_two a ha with rfl | rfl <;> decide⟩)
+    (show m0.region.containsExact [4, 2] from
+      ⟨rfl, fun a ha => by rcases lt_two a ha with rfl | rfl <;> decide⟩)
+
+/-- hypothesis of `asArray_func`: `p ↦ (p_x, p_y, 1)` returns 3 values everywhere -/
+example : ∀ i, inRange m0.n i = true → ((fun p : List Rat => [p.getD 0 0, p.getD 1 0, 1]) (m0.centre i)).length = 3 :=
+  fun _ _ => rfl
+
+/-- hypothesis of `comp_eq`: label `"y"` of a field with labels `x, y` -/
+example (data : NDA Rat) : ∃ g, (VF.mk m0 2 data (some ["x", "y"])).comp (fun v => v == 0) "y" = .ok g :=
+  comp_accepts _ _ "y" ["x", "y"] 1 rfl (by decide)
+
+end Ex
 
 end DFV.C02
